@@ -273,6 +273,9 @@ pub fn c01_cases(b: &Bounds) -> Vec<CaseDesc> {
     for l in crate::vals::text_alphabet(b.large) {
         cases.push(CaseDesc::Name { label: l.0 });
     }
+    for n in [255usize, 256, 257, 300, 1000] {
+        cases.push(CaseDesc::Wide { n });
+    }
     cases
 }
 
@@ -285,6 +288,9 @@ pub fn c02_cases(b: &Bounds) -> Vec<CaseDesc> {
     }
     for d in [1usize, 2, 3, 10, 100, 300] {
         cases.push(CaseDesc::Chain { depth: d });
+    }
+    for n in [255usize, 256, 257, 300, 1000] {
+        cases.push(CaseDesc::Wide { n });
     }
     cases
 }
